@@ -119,8 +119,18 @@ func touch(path string, present bool) {
 	}
 }
 
+// shapes of unparsable file content (ReadIntFromFile must return an error for each of them)
+var garbageShapes = []string{"garbage\n", "\n", " \t\n", "4x\n", "\n\n", "0x1F\n"}
+var garbageCounter int
+
 func (w *world) applyDev(a kv) {
 	d := w.dev
+	for _, v := range a {
+		if v == "other:0" {
+			garbageCounter++
+			d.GarbageText = garbageShapes[garbageCounter%len(garbageShapes)]
+		}
+	}
 	for k, v := range a {
 		switch k {
 		case "pwm":
